@@ -41,10 +41,14 @@ type State struct {
 	heap  map[*Obj]Value
 	pc    []*Term
 	ghost map[string]Value
+	gver  map[*Obj]int // ghost-field version per object (bumped when the object is havocked)
 }
 
 func (s *State) clone() *State {
-	n := &State{vars: make(map[*types.Var]*Obj, len(s.vars)), heap: make(map[*Obj]Value, len(s.heap)), ghost: map[string]Value{}}
+	n := &State{vars: make(map[*types.Var]*Obj, len(s.vars)), heap: make(map[*Obj]Value, len(s.heap)), ghost: map[string]Value{}, gver: map[*Obj]int{}}
+	for k, v := range s.gver {
+		n.gver[k] = v
+	}
 	for k, v := range s.vars {
 		n.vars[k] = v
 	}
@@ -73,7 +77,93 @@ func (s *State) assume(t *Term) {
 			return
 		}
 	}
+	// an equation variable == constant is propagated through the whole state
+	if t.Op == "=" {
+		a, b := t.Args[0], t.Args[1]
+		if b.Op == "var" && a.IsConst() {
+			a, b = b, a
+		}
+		if a.Op == "var" && b.IsConst() && a.Sort.K != KArr {
+			s.substAll(map[*Term]*Term{a: b})
+		}
+	}
 	s.pc = append(s.pc, t)
+}
+
+func (s *State) substAll(m map[*Term]*Term) {
+	// values only: the path condition keeps its original terms (and the equation), so that
+	// states that share a prefix of the path condition can still be merged
+	for o, v := range s.heap {
+		s.heap[o] = substValue(v, m)
+	}
+	for k, v := range s.ghost {
+		s.ghost[k] = substValue(v, m)
+	}
+}
+
+func substValue(v Value, m map[*Term]*Term) Value {
+	switch x := v.(type) {
+	case *Term:
+		return Subst(x, m)
+	case *Ptr:
+		ch := false
+		np := &Ptr{Obj: x.Obj, Path: make([]Sel, len(x.Path))}
+		for i, s := range x.Path {
+			np.Path[i] = s
+			if s.Idx != nil {
+				np.Path[i].Idx = Subst(s.Idx, m)
+				if np.Path[i].Idx != s.Idx {
+					ch = true
+				}
+			}
+		}
+		if x.Span != nil {
+			np.Span = Subst(x.Span, m)
+			if np.Span != x.Span {
+				ch = true
+			}
+		}
+		if !ch {
+			return x
+		}
+		return np
+	case *Slice:
+		b := substValue(x.Base, m).(*Ptr)
+		return &Slice{Base: b, Off: Subst(x.Off, m), Len: Subst(x.Len, m), Cap: Subst(x.Cap, m), Nil: Subst(x.Nil, m), Elem: x.Elem}
+	case *Struct:
+		n := &Struct{T: x.T, F: make([]Value, len(x.F))}
+		for i, f := range x.F {
+			n.F[i] = substValue(f, m)
+		}
+		return n
+	case *Array:
+		n := &Array{E: make([]Value, len(x.E))}
+		for i, f := range x.E {
+			n.E[i] = substValue(f, m)
+		}
+		return n
+	case *ErrV:
+		return &ErrV{NonNil: Subst(x.NonNil, m), Tag: x.Tag}
+	case *Iface:
+		if x.V == nil && x.NilC == nil {
+			return x
+		}
+		n := *x
+		if x.V != nil {
+			n.V = substValue(x.V, m)
+		}
+		if x.NilC != nil {
+			n.NilC = Subst(x.NilC, m)
+		}
+		return &n
+	case Tuple:
+		n := make(Tuple, len(x))
+		for i, f := range x {
+			n[i] = substValue(f, m)
+		}
+		return n
+	}
+	return v
 }
 
 func (s *State) infeasible() bool {
@@ -117,6 +207,7 @@ type Oblig struct {
 	Res     SolveResult
 	Inputs  map[string]*Term
 	presolved bool
+	PreHyps   []*Term
 	Inconclusive bool
 	query     *Query
 }
@@ -151,6 +242,8 @@ type exec struct {
 	mulLog      []mulRec
 	lemmaDepth  int
 	allowed     *Term
+	usedGlobalFacts map[string]bool
+	trustedClauses  map[string]bool
 }
 
 type mulRec struct{ x, c *Term }
@@ -281,6 +374,16 @@ func (ex *exec) arrSort(elem types.Type) *Sort {
 
 const smallArray = 64
 
+// smallArr: in int mode short arrays of words are kept as lists of ranged scalars (Fiat limbs);
+// byte arrays stay SMT arrays so that symbolic-length copies work.
+func (ex *exec) smallArr(elem types.Type, n int64) bool {
+	if ex.mode != ModeInt || n > smallArray {
+		return false
+	}
+	w, _, ok := ex.intWidth(elem)
+	return ok && w > 8
+}
+
 func (ex *exec) idxSort() *Sort {
 	if ex.mode == ModeInt {
 		return IntSort
@@ -339,7 +442,7 @@ func (ex *exec) zeroValue(t types.Type) Value {
 	case *types.Slice:
 		return &Slice{Base: &Ptr{}, Off: ex.idxConst(0), Len: ex.idxConst(0), Cap: ex.idxConst(0), Nil: True, Elem: u.Elem()}
 	case *types.Array:
-		if es := ex.scalarSort(u.Elem()); es != nil && !(ex.mode == ModeInt && u.Len() <= smallArray) {
+		if es := ex.scalarSort(u.Elem()); es != nil && !ex.smallArr(u.Elem(), u.Len()) {
 			var z *Term
 			if es == BoolSort {
 				z = False
@@ -412,7 +515,7 @@ func (ex *exec) freshValue(st *State, t types.Type, name string, depth int) Valu
 	case *types.Slice:
 		return ex.freshSlice(st, u.Elem(), name, depth)
 	case *types.Array:
-		if es := ex.scalarSort(u.Elem()); es != nil && !(ex.mode == ModeInt && u.Len() <= smallArray) {
+		if es := ex.scalarSort(u.Elem()); es != nil && !ex.smallArr(u.Elem(), u.Len()) {
 			return Fresh(name, ex.arrSort(u.Elem()))
 		}
 		if u.Len() > 4096 {
@@ -1169,6 +1272,12 @@ func (ex *exec) havocLoopTargets(st *State, body *ast.BlockStmt, post ast.Stmt, 
 		scan(post)
 	}
 	for _, m := range lc.Modifies {
+		if id, ok := m.(*ast.Ident); ok {
+			if gd, ok := ex.eng.ghosts[id.Name]; ok && gd.Var {
+				st.ghost[id.Name] = Fresh("ghost."+id.Name, gd.Sort)
+				continue
+			}
+		}
 		ex.havocPointee(st, m, targets)
 		addRoot(m)
 	}
@@ -1342,7 +1451,7 @@ func (ex *exec) execRange(st *State, s *ast.RangeStmt, label string) []*Outcome 
 		// abstract iteration with the hidden index named $i
 		idx := ex.newObj(keyT, "$range", true)
 		st.heap[idx] = ex.idxConst(0)
-		st.ghost["$i"] = &Ptr{Obj: idx}
+		st.ghost["range_i"] = &Ptr{Obj: idx}
 		// encode as: for $i < n { bind; body; $i++ }
 		// establish/havoc/preserve handled by a synthetic loop
 		return ex.execRangeCut(st, s, label, lc, idx, n, bindVars)
@@ -1397,7 +1506,7 @@ func (ex *exec) execRangeCut(st *State, s *ast.RangeStmt, label string, lc *Loop
 		ex.oblige(st, fmt.Sprintf("loop%d.inv-init", lc.Ord), inv.Label, ex.evalSpecBool(st, fr, inv.Expr, nil), pos)
 	}
 	ex.havocLoopTargets(st, s.Body, nil, lc, pos)
-	st.heap[idx] = ex.freshLen("$i")
+	st.heap[idx] = ex.freshLen("range_i")
 	st.assume(inRange(st))
 	for _, inv := range lc.Invariants {
 		st.assume(ex.evalSpecBool(st, fr, inv.Expr, nil))
@@ -1491,7 +1600,15 @@ func (ex *exec) tryMerge(a, b *State) (res *State) {
 type mergeFail struct{}
 
 func (ex *exec) mergeWith(a, b *State, ca *Term, pc []*Term) *State {
-	n := &State{vars: map[*types.Var]*Obj{}, heap: map[*Obj]Value{}, ghost: map[string]Value{}, pc: pc}
+	n := &State{vars: map[*types.Var]*Obj{}, heap: map[*Obj]Value{}, ghost: map[string]Value{}, pc: pc, gver: map[*Obj]int{}}
+	for k, v := range a.gver {
+		n.gver[k] = v
+	}
+	for k, v := range b.gver {
+		if v > n.gver[k] {
+			n.gver[k] = v
+		}
+	}
 	for v, o := range a.vars {
 		if bo, ok := b.vars[v]; ok {
 			if bo != o {
@@ -1541,8 +1658,24 @@ func mergeValue(c *Term, a, b Value) Value {
 		return Ite(c, x, y)
 	case *Ptr:
 		y, ok := b.(*Ptr)
-		if !ok || !samePtr(x, y) {
+		if !ok {
 			panic(mergeFail{})
+		}
+		if x.Obj == nil && y.Obj == nil {
+			return x
+		}
+		// nil on one side: conditional pointer
+		if x.Obj == nil && y.Obj != nil {
+			return &Ptr{Obj: y.Obj, Path: y.Path, Span: y.Span, NilC: Or(c, ptrNil(y))}
+		}
+		if y.Obj == nil && x.Obj != nil {
+			return &Ptr{Obj: x.Obj, Path: x.Path, Span: x.Span, NilC: Or(Not(c), ptrNil(x))}
+		}
+		if !samePtr(x, y) {
+			panic(mergeFail{})
+		}
+		if x.NilC != nil || y.NilC != nil {
+			return &Ptr{Obj: x.Obj, Path: x.Path, Span: x.Span, NilC: Ite(c, ptrNil(x), ptrNil(y))}
 		}
 		return x
 	case *Slice:
